@@ -784,7 +784,12 @@ def rule_gap_is_loud(prog, rep, rid="R8"):
             outcome = f"stops with {fl.value}"
         dists = {a["name"]: a["refdistance"] for a in res["atoms"]}
         if cut is None:
-            want = {"N": -1, "CA": -1, "C": -1, "O": -1, "HA": -1, "CB": 1, "HB1": 2, "HB2": 2}
+            # atoms the code's own BACKBONE table names are marked -1 (which atoms that table lists is R1's business: they are never pivots'
+            # far sides); every other atom carries its breadth-first distance to CA
+            bb = prog.module_constants("config.py").get("BACKBONE")
+            bb = set(bb) if isinstance(bb, (list, tuple, set, frozenset)) else {"N", "CA", "C", "O", "HA"}
+            bfs = {"N": 1, "CA": 0, "C": 1, "O": 2, "HA": 1, "CB": 1, "HB1": 2, "HB2": 2}
+            want = {n_: (-1 if n_ in bb else d_) for n_, d_ in bfs.items()}
             r.add(f"gap|{label}", outcome == "returns" and dists == want, f"{label}: {outcome}; distances to CA {dists}" + ("" if dists == want else f", expected {want}"), where)
         else:
             r.add(f"gap|{label}", outcome.startswith("stops with") and "ValueError" in outcome,
